@@ -782,7 +782,7 @@ func exportJSON(l *har.Logger) ([]byte, error) {
 }
 
 func genOpts(key string, proxy bool) msgx.GenOpts {
-	return msgx.GenOpts{Key: key, Rich: true, BadForms: true, Zlib: true, BadQuery: true, Proxy: proxy}
+	return msgx.GenOpts{Key: key, Rich: true, BadForms: true, Zlib: true, BadQuery: true, Proxy: proxy, OddCTypeParams: true}
 }
 
 func direct(r *vh.Run, c c16Case) {
